@@ -304,6 +304,10 @@ def deflate_buffer(u: U):
             self.tag = tag
             self.data_available = avail
             self.eof = u.bool("dec.eof")
+            # ghost (not an attribute the code can read): the decoder has consumed input of a member that has not ended.
+            # For deflate that is `not eof` once input was fed; for gzip `eof` says nothing - the decoder is replaced by
+            # a fresh one (eof False) whenever a member ends exactly at the end of a chunk
+            self.ghost_mid_member = u.bool("dec.mid_member")
 
         def decompress_sync(self, c, max_length=0):
             log.append(("decompress", self.tag, c, max_length))
@@ -368,8 +372,14 @@ def deflate_buffer(u: U):
     o2 = u.call(g, d)
     dec = fs["decompressor"]
     trunc = And(fs["size"] > 0, enc == "deflate", Not(dec.eof))
+    if enc == "deflate":
+        u.assume(Implies(fs["size"] > 0, Iff(dec.ghost_mid_member, Not(dec.eof))))
+    truncated = And(fs["size"] > 0, dec.ghost_mid_member)
     if o2.ok:
-        u.check("C09.deflate.eof_only_if_complete", Not(trunc), "(E) a deflate body that stops before its end is not passed off as complete")
+        u.check("C09.deflate.eof_only_if_complete", Not(truncated),
+                "(E) a compressed body that stops in the middle of a member is not passed off as complete, whatever the "
+                "coding: the application would read a prefix of the content as if it were all of it",
+                known=[("F9b", enc != "deflate")], witness={"encoding": enc, "decoder.eof": dec.eof})
         u.check("C09.deflate.eof_forwarded", ("eof",) in log, "end of body reaches the reader")
     else:
         u.check("C09.deflate.truncated_reported", And(isinstance(o2.exc, ContentEncodingError), trunc),
